@@ -373,19 +373,28 @@ def generate_macro_application(
     macro_code = macro_def.block
     macro_args = macro_def.args
     macro_args_values = node.args
+    # arguments are evaluated at the call site, before the application's scope exists: a parameter must not capture
+    # a name used by a later argument.
+    call_site_scope = resolver.current_scope
+    bindings: list[tuple[str, Any, bool]] = []
+    for index, arg in enumerate(macro_args):
+        value = macro_args_values[index]
+        if isinstance(value, BlockAstNode):
+            bindings.append((arg, value, False))
+        else:
+            try:
+                bindings.append((arg, eval_expression(value, resolver), False))
+            except SymbolNotDefined:
+                # defer the resolve to the emit part.
+                bindings.append((arg, value, True))
     resolver.append_scope()
     resolver.use_next_scope()
     code.append(ScopeNode(resolver))
-    for index, arg in enumerate(macro_args):
-        value = macro_args_values[index]
-        try:
-            if isinstance(value, BlockAstNode):
-                resolver.current_scope.add_symbol(arg, value)
-            else:
-                resolver.current_scope.add_symbol(arg, eval_expression(value, resolver))
-        except SymbolNotDefined:
-            # defer the resolve to the emit part.
-            code.append(SymbolNode(arg, value, resolver))
+    for arg, value, deferred in bindings:
+        if deferred:
+            code.append(SymbolNode(arg, value, resolver, evaluation_scope=call_site_scope))
+        else:
+            resolver.current_scope.add_symbol(arg, value)
     code += _code_gen(macro_code.body, resolver, macro_definitions)
     code.append(PopScopeNode(resolver))
     resolver.restore_scope()
